@@ -837,7 +837,9 @@ def case_lines(cfg, run=True, vals=None, label="cfg"):
     ops = [f"#case {label}", f"cfg.load yaml={b} mode={cfg.get('mode', '644')} spec={to_spec(cfg).replace(' ', '~')}"]
     if run:
         vals = vals or [30000, 55000, 90000]
-        ops.append("cfg.run vals=%s now=1000000000" % ",".join(str(v) for v in vals))
+        # ... and once more with every sensor read failing (seed C11h: a function curve that skips failing members divided
+        # by the number of members left)
+        ops.append("cfg.run vals=%s now=1000000000 fail=1" % ",".join(str(v) for v in vals))
     return ops
 
 
